@@ -249,3 +249,92 @@ Proof.
   lra.
 Qed.
 End Gen.
+
+(* ---------- min_max_mean: range and mean ---------- *)
+Lemma mass_le_zero_below (ws xs : list R) mn q : length xs = length ws -> Forall (fun w => 0 <= w) ws -> Forall (fun x => mn <= x) xs -> q < mn ->
+  mass (fun x => Rleb x q) ws xs = 0.
+Proof. unfold mass. revert xs. induction ws as [|w ws IH]; intros [|x xs] Hl Hw Hx Hq; cbn in Hl; try lia; cbn [map dot]; [reflexivity|].
+  inversion Hw; inversion Hx; subst. rewrite (IH xs) by (auto; lia). rewrite (proj2 (Rleb_false x q)) by lra. lra. Qed.
+Lemma mass_lt_one_above (ws xs : list R) mx q : length xs = length ws -> sum_list ws = 1 -> Forall (fun x => x <= mx) xs -> mx < q ->
+  mass (fun x => Rltb x q) ws xs = 1.
+Proof. intros Hl Hs Hx Hq. rewrite <- Hs. unfold mass. clear Hs. revert xs Hl Hx. induction ws as [|w ws IH]; intros [|x xs] Hl Hx; cbn in Hl; try lia; cbn [map dot sum_list fold_right]; [reflexivity|].
+  inversion Hx; subst. rewrite (IH xs) by (auto; lia). rewrite (proj2 (Rltb_true x q)) by lra. unfold sum_list. lra. Qed.
+
+Section GenMMM.
+Variable n : nat.
+Hypothesis n1 : (1 <= n)%nat.
+Variables mn mx mu : R.
+Let N := INR n.
+Lemma Npos' : 0 < N. Proof. unfold N. apply lt_0_INR. lia. Qed.
+Let mid := (mx - mu) / (mx - mn).
+(* the k-th entries of the lists handed to Staircase *)
+Lemma mmm_left_nth k : (k < n)%nat ->
+  nth k (fst (free_min_max_mean RN n mn mx mu)) 0 = if Rleb (INR k / N) mid then mn else (mu - mx) / (INR k / N) + mx.
+Proof.
+  intros Hk. unfold free_min_max_mean. cbv zeta. cbn [fst]. cbn [nadd nsub nmul ndiv nleb nofZ RN T].
+  rewrite (nth_map_in (fun i => if Rleb i ((mx - mu) / (mx - mn)) then mn else (mu - mx) / i + mx)) by (rewrite map_length, seq_length; lia).
+  cbn beta. rewrite nth_map_seq_R by lia. rewrite !INRZ. replace (0 + k)%nat with k by lia. reflexivity.
+Qed.
+Lemma mmm_right_nth k : (k < n)%nat ->
+  nth k (snd (free_min_max_mean RN n mn mx mu)) 0 = if Rleb mid (INR (k + 1) / N) then mx else (mu - mn * (INR (k + 1) / N)) / (1 - INR (k + 1) / N).
+Proof.
+  intros Hk. unfold free_min_max_mean. cbv zeta. cbn [snd]. cbn [nadd nsub nmul ndiv nleb nofZ RN T].
+  rewrite (nth_map_in (fun j => if Rleb ((mx - mu) / (mx - mn)) j then mx else (mu - mn * j) / (1 - j))) by (rewrite map_length, seq_length; lia).
+  cbn beta. rewrite nth_map_seq_R by lia. rewrite !INRZ. replace (1 + k)%nat with (k + 1)%nat by lia. reflexivity.
+Qed.
+(* soundness on every step, for every finite distribution on [mn, mx] with mean mu, at every level inside the step *)
+Theorem mmm_left_sound (ws xs : list R) k p q : dist_ok ws xs -> mean_of ws xs = mu -> Forall (fun x => mn <= x <= mx) xs ->
+  (k < n)%nat -> INR k / N <= p -> 0 < p -> p <= mass (fun x => Rleb x q) ws xs ->
+  nth k (fst (free_min_max_mean RN n mn mx mu)) 0 <= q.
+Proof.
+  intros OK Hm Hx Hk Hp Hp0 Hq. rewrite mmm_left_nth by exact Hk. pose proof Npos' as HN.
+  destruct OK as (Hl & Hw & Hs).
+  assert (Hqmn : mn <= q).
+  { destruct (Rle_dec mn q) as [|Hn]; [assumption|]. exfalso.
+    rewrite (mass_le_zero_below ws xs mn q Hl Hw) in Hq; [lra| |lra]. eapply Forall_impl; [|exact Hx]; cbn; intros; lra. }
+  destruct (Rleb (INR k / N) mid) eqn:C; [exact Hqmn|]. apply Rleb_false in C.
+  assert (Hxx : Forall (fun x => x <= mx) xs) by (eapply Forall_impl; [|exact Hx]; cbn; intros; lra).
+  pose proof (markov_lower ws xs (conj Hl (conj Hw Hs)) mx q p Hxx Hq Hp0) as M. rewrite Hm in M.
+  assert (Hk0 : 0 < INR k / N).
+  { destruct (Rle_dec (INR k / N) 0) as [Hz|]; [|lra]. exfalso.
+    assert (Hmid : 0 <= mid).
+    { unfold mid. assert (mu <= mx).
+      { rewrite <- Hm. replace (mean_of ws xs) with (mx - dot ws (map (fun x => mx - x) xs)).
+        - assert (0 <= dot ws (map (fun x => mx - x) xs)) by (apply dot_nonneg; auto; eapply Forall_impl; [|exact Hx]; cbn; intros; lra). lra.
+        - rewrite (map_ext _ (fun x => 0 * (x * x) + (- 1) * x + mx)) by (intros; ring). rewrite dot_affine2, Hs by exact Hl. unfold mean_of. ring. }
+      destruct (Req_dec mx mn) as [E|E]; [unfold Rdiv; replace (mx - mn) with 0 by lra; rewrite Rinv_0; lra|].
+      assert (mn <= mx) by (destruct xs as [|x0 ?]; [cbn in Hl; destruct ws; [cbn in Hs; unfold sum_list in Hs; cbn in Hs; lra|discriminate]|inversion Hx; subst; lra]).
+      apply Rmult_le_pos; [lra|left; apply Rinv_0_lt_compat; lra]. }
+    lra. }
+  assert (Mono : (mx - mu) / p <= (mx - mu) / (INR k / N)).
+  { assert (0 <= mx - mu).
+    { rewrite <- Hm. replace (mx - mean_of ws xs) with (dot ws (map (fun x => mx - x) xs)).
+      - apply dot_nonneg; auto. eapply Forall_impl; [|exact Hx]; cbn; intros; lra.
+      - rewrite (map_ext _ (fun x => 0 * (x * x) + (- 1) * x + mx)) by (intros; ring). rewrite dot_affine2, Hs by exact Hl. unfold mean_of. ring. }
+    unfold Rdiv at 1 3. apply Rmult_le_compat_l; [assumption|]. apply Rinv_le_contravar; lra. }
+  replace ((mu - mx) / (INR k / N) + mx) with (mx - (mx - mu) / (INR k / N)) by (unfold Rdiv; ring). lra.
+Qed.
+Theorem mmm_right_sound (ws xs : list R) k p q : dist_ok ws xs -> mean_of ws xs = mu -> Forall (fun x => mn <= x <= mx) xs -> mn < mx ->
+  (k < n)%nat -> p <= INR (k + 1) / N -> p < 1 -> mass (fun x => Rltb x q) ws xs <= p ->
+  q <= nth k (snd (free_min_max_mean RN n mn mx mu)) 0.
+Proof.
+  intros OK Hm Hx Hlt Hk Hp Hp1 Hq. rewrite mmm_right_nth by exact Hk. pose proof Npos' as HN.
+  destruct OK as (Hl & Hw & Hs).
+  assert (Hqmx : q <= mx).
+  { destruct (Rle_dec q mx) as [|Hn]; [assumption|]. exfalso.
+    rewrite (mass_lt_one_above ws xs mx q Hl Hs) in Hq; [lra| |lra]. eapply Forall_impl; [|exact Hx]; cbn; intros; lra. }
+  set (j := INR (k + 1) / N) in *.
+  destruct (Rleb mid j) eqn:C; [exact Hqmx|]. apply Rleb_false in C.
+  assert (Hmu : mn <= mu).
+  { rewrite <- Hm. replace (mean_of ws xs) with (mn + dot ws (map (fun x => x - mn) xs)) by (rewrite dot_shift, Hs by exact Hl; unfold mean_of; ring).
+    assert (0 <= dot ws (map (fun x => x - mn) xs)) by (apply dot_nonneg; auto; eapply Forall_impl; [|exact Hx]; cbn; intros; lra). lra. }
+  assert (Hmid1 : mid <= 1).
+  { unfold mid. apply Rmult_le_reg_r with (mx - mn); [lra|]. unfold Rdiv. rewrite Rmult_assoc, Rinv_l by lra. lra. }
+  assert (Hj1 : j < 1) by lra.
+  assert (Hxx : Forall (fun x => mn <= x) xs) by (eapply Forall_impl; [|exact Hx]; cbn; intros; lra).
+  pose proof (markov_upper ws xs (conj Hl (conj Hw Hs)) mn q p Hxx Hq Hp1) as M. rewrite Hm in M.
+  assert (Mono : (mu - mn) / (1 - p) <= (mu - mn) / (1 - j)).
+  { unfold Rdiv. apply Rmult_le_compat_l; [lra|]. apply Rinv_le_contravar; lra. }
+  replace ((mu - mn * j) / (1 - j)) with (mn + (mu - mn) / (1 - j)) by (field; lra). lra.
+Qed.
+End GenMMM.
